@@ -147,6 +147,8 @@ def do_update(w, seam, u, op_index, top='Manifest', session=None):
             if u.get('incremental'):
                 argv += ['-i']
             argv += [os.path.join(root, path) if path else root]
+            if u.get('path2') and path:
+                argv += [os.path.join(root, u['path2'])]      # one invocation, two directories below one top-level Manifest
             import gemato.cli
             from .seam import make_datetime_shim
             old_dt = gemato.cli.datetime
@@ -287,10 +289,19 @@ def _run_history(sc, want_idempotence=True, faults=None, audits=True):
                 continue
             u = rnd['update']
             scope = u.get('path', '')
+            if u.get('path2') and (u.get('api') != 'cli' or not scope or u.get('create') or
+                                   not os.path.isdir(os.path.join(w.root, u['path2'])) or
+                                   not cli_discovers_root_top(w.root, u['path2'])):
+                u = dict(u)
+                u.pop('path2')
             if u.get('api') == 'cli' and not u.get('create') and not cli_discovers_root_top(w.root, scope):
                 # upward discovery would not land on this tree's top-level Manifest (C15's subject)
                 zones['cli-discovery-elsewhere'] = zones.get('cli-discovery-elsewhere', 0) + 1
                 u = dict(u, api='lib')
+                u.pop('path2', None)
+            scopes = [scope] + ([u['path2']] if u.get('path2') else [])
+            if len(scopes) > 1:
+                counters['cli_updates_naming_two_directories'] = counters.get('cli_updates_naming_two_directories', 0) + 1
             before = in_use_manifests(w.root, top)
             if u.get('wm_of'):
                 # symbolic watermark: current uncompressed size of a Manifest + delta
@@ -396,7 +407,7 @@ def _run_history(sc, want_idempotence=True, faults=None, audits=True):
             for vb in valid_before:
                 # (only names the unregistered-Manifest scan looks for can be adopted by the update)
                 if vb not in before_all and os.path.basename(vb) in G.MANIFEST_NAMES and vb in valid_before_ents and \
-                        psw(os.path.dirname(vb), scope):
+                        any(psw(os.path.dirname(vb), s_) for s_ in scopes):
                     # (the scan for unregistered Manifests covers the updated directory only: one lying above it stays
                     # unknown to a sub-directory update)
                     before_all[vb] = valid_before_ents[vb]     # unregistered but valid: update will adopt it
@@ -420,7 +431,7 @@ def _run_history(sc, want_idempotence=True, faults=None, audits=True):
                     violations.append(viol('own.entry-type-changed', '%s: %r was %s, now %s' % (what, p, tags[0], post[p][0]), sig='%s->%s' % (tags[0], post[p][0])))
             # out-of-scope entries on a sub-directory update
             written_now = set(p_ for e_ in seam.write_events if e_[0] >= opi - 2 for p_ in e_[2].split(' -> '))
-            if scope:
+            if scope and len(scopes) == 1:
                 for ln, ents in bl.items():
                     if ln not in al:
                         continue
@@ -455,37 +466,40 @@ def _run_history(sc, want_idempotence=True, faults=None, audits=True):
             if u.get('last_mtime') is not None or u.get('incremental'):
                 eh = None
             wr_now = set(e[2] for e in seam.write_events if e[0] >= opi - 2 and e[1] == 'open.w')
-            a = audit(w.root, top, scope, eh, prior_in_use=set(before), written=wr_now)
-            nprob = 0
-            for code, p, detail in a.problems:
-                if scope and code == 'manifest-entry-stale' and p in stale_before and p not in wr_now:
-                    # a sub-directory update does not answer for references outside its scope that were
-                    # stale before it started and that it did not rewrite
-                    zones['subdir-update:stale-reference-outside-scope'] = zones.get('subdir-update:stale-reference-outside-scope', 0) + 1
-                    continue
-                nprob += 1
-                if nprob <= 4:
-                    violations.append(viol('audit.' + code, '%s: %s %r %s' % (what, code, p, detail), sig=code))
-            counters['audited_updates'] = counters.get('audited_updates', 0) + 1
-            mv = Model(w.root, top).verdict(scope)
-            with seam:
-                seam.begin_op(opi)
-                rv = call(lambda: ManifestRecursiveLoader(os.path.join(w.root, top), **_lkw()).assert_directory_verifies(scope))
-            opi += 1
-            results.append(rv)
-            if rv[0] == 'INTERNAL':
-                violations.append(viol('I-internal', 'internal error escaped: %s: %s [verify after %s]' % (rv[1], rv[2], what), sig=rv[1]))
-            elif not (rv[0] == 'ok' and rv[1] is True):
-                if mv.kind in ('DONTCARE',):
-                    zones['verify-after-update:' + ','.join(sorted(set(mv.zones)))] = 1
-                elif scope and mv.kind == 'CHAIN' and all(c in stale_before and c not in wr_now for c in mv.chain):
-                    zones['subdir-update:stale-reference-outside-scope'] = zones.get('subdir-update:stale-reference-outside-scope', 0) + 1
-                else:
-                    violations.append(viol('audit.verify-after-update', '%s: fresh verification %s (model: %s %r)' % (
-                        what, describe(rv), mv.kind, dict(list(mv.offending.items())[:3]) or mv.chain), sig='%s:%s' % (rv[0], rv[1])))
-            elif mv.kind not in ('OK', 'DONTCARE'):
-                violations.append(viol('audit.model-disagrees', '%s: gemato verifies but the model says %s %r' % (
-                    what, mv.kind, dict(list(mv.offending.items())[:3]) or mv.chain), sig=mv.kind))
+            for scope in scopes:
+                a = audit(w.root, top, scope, eh, prior_in_use=set(before), written=wr_now)
+                nprob = 0
+                for code, p, detail in a.problems:
+                    if scope and code == 'manifest-entry-stale' and p in stale_before and p not in wr_now:
+                        # a sub-directory update does not answer for references outside its scope that were
+                        # stale before it started and that it did not rewrite
+                        zones['subdir-update:stale-reference-outside-scope'] = zones.get('subdir-update:stale-reference-outside-scope', 0) + 1
+                        continue
+                    nprob += 1
+                    if nprob <= 4:
+                        violations.append(viol('audit.' + code, '%s: %s %r %s' % (what, code, p, detail), sig=code))
+                counters['audited_updates'] = counters.get('audited_updates', 0) + 1
+                mv = Model(w.root, top).verdict(scope)
+                with seam:
+                    seam.begin_op(opi)
+                    rv = call(lambda: ManifestRecursiveLoader(os.path.join(w.root, top), **_lkw()).assert_directory_verifies(scope))
+                opi += 1
+                results.append(rv)
+                if rv[0] == 'INTERNAL':
+                    violations.append(viol('I-internal', 'internal error escaped: %s: %s [verify after %s]' % (rv[1], rv[2], what), sig=rv[1]))
+                elif not (rv[0] == 'ok' and rv[1] is True):
+                    if mv.kind in ('DONTCARE',):
+                        zones['verify-after-update:' + ','.join(sorted(set(mv.zones)))] = 1
+                    elif scope and mv.kind == 'CHAIN' and all(c in stale_before and c not in wr_now for c in mv.chain):
+                        zones['subdir-update:stale-reference-outside-scope'] = zones.get('subdir-update:stale-reference-outside-scope', 0) + 1
+                    else:
+                        violations.append(viol('audit.verify-after-update', '%s: fresh verification %s (model: %s %r)' % (
+                            what, describe(rv), mv.kind, dict(list(mv.offending.items())[:3]) or mv.chain), sig='%s:%s' % (rv[0], rv[1])))
+                elif mv.kind not in ('OK', 'DONTCARE'):
+                    violations.append(viol('audit.model-disagrees', '%s: gemato verifies but the model says %s %r' % (
+                        what, mv.kind, dict(list(mv.offending.items())[:3]) or mv.chain), sig=mv.kind))
+            opi -= len(scopes) - 1       # (op numbering stays one verification per round)
+            scope = scopes[0]
             # ---- C13: watermark / one file per logical Manifest
             wm = u.get('watermark')
             if wm is None and u.get('profile') in ('ebuild', 'old-ebuild'):
